@@ -48,7 +48,7 @@ type c10Report struct {
 // hostile argument matrix: path-, URL- and command-like strings and other types
 func c10Args(canary string) []object.Object {
 	strs := []string{"/etc/passwd", canary, canary + ".new", "file:///etc/passwd", "file://" + canary, "127.0.0.1:1", "http://127.0.0.1:1/x", "|id", "; touch " + canary + ".cmd", "$(id)", "`id`",
-		"../../etc/passwd", "/dev/null", "/proc/self/environ", "HOME", "PATH", "TZ", "%s%s%s%n", "%v", "", "a", "(", "\\\\host\\share", "-rf /", "> " + canary + ".redir", "/tmp"}
+		"../../etc/passwd", "/dev/null", "/proc/self/environ", "HOME", "PATH", "TZ", "%s%s%s%n", "%v", "", "a", "(", "[a-", "*", "\\\\host\\share", "-rf /", "> " + canary + ".redir", "/tmp"}
 	var out []object.Object
 	for _, s := range strs {
 		out = append(out, &object.String{Value: s})
@@ -66,9 +66,13 @@ func c10Worker(args []string) {
 	fmt.Sscan(args[0], &seed)
 	fmt.Sscan(args[1], &nscripts)
 	canary := args[2]
-	real := os.Stdout
+	// keep the report channel, then point file descriptor 1 itself at /dev/null so
+	// that what the engine prints really goes to "standard output" at the syscall level
+	saved, _ := syscall.Dup(1)
+	real := os.NewFile(uintptr(saved), "report")
 	dn, _ := os.OpenFile(os.DevNull, os.O_WRONLY, 0)
-	os.Stdout = dn // the engine's print goes to (a) standard output: allowed by the property
+	syscall.Dup2(int(dn.Fd()), 1)
+	dn.Close()
 	rep := c10Report{OpHist: map[string]int64{}}
 	var hist [64]int64
 	r := rand.New(rand.NewSource(seed))
@@ -164,7 +168,9 @@ func c10Worker(args []string) {
 		obj, _ := eng.FieldsToMap(fields)
 		evr.Exec(obj)
 		evr.RunBool(obj)
-		evr.E.Dump()
+		if i%8 == 0 {
+			evr.E.Dump()
+		}
 		rep.Scripts++
 	}
 	marker("END")
@@ -192,10 +198,14 @@ func c10(c *ev.Ctx) {
 	os.WriteFile(canary, []byte("canary-content-1\n"), 0o644)
 	self, _ := os.Executable()
 	logf := filepath.Join(work, "strace.log")
-	nscripts := c.Pick(2000, 100000)
-	cmd := exec.Command("timeout", "-s", "KILL", "3000", "strace", "-f", "--seccomp-bpf", "-qq", "-s", "300", "-o", logf, "-e", "trace=%file,%network,%process", self, "worker", "c10", fmt.Sprint(c.Seed), fmt.Sprint(nscripts), canary)
+	nscripts := c.Pick(2000, 40000)
+	cmd := exec.Command("timeout", "-s", "KILL", "3000", "strace", "-f", "--seccomp-bpf", "-qq", "-s", "300", "-o", logf, "-e", "trace=%file,%network,%process,write,writev,pwrite64,pwritev,pwritev2,sendfile,eventfd2,eventfd,pipe,pipe2,dup,dup2,dup3,close", self, "worker", "c10", fmt.Sprint(c.Seed), fmt.Sprint(nscripts), canary)
 	cmd.Env = append(os.Environ(), "ZONEINFO=")
+	errPath := filepath.Join(work, "worker-stderr.txt")
+	errFile, _ := os.Create(errPath)
+	cmd.Stderr = errFile
 	out, err := cmd.Output()
+	errFile.Close()
 	var rep c10Report
 	if jerr := json.Unmarshal(out, &rep); jerr != nil {
 		c.Inconclusive(fmt.Sprintf("traced worker gave no report (err=%v): strace unusable here or the worker died: %s", err, clip(string(out), 200)))
@@ -213,8 +223,35 @@ func c10(c *ev.Ctx) {
 	current := "(start)"
 	events, tzReads, threads := 0, 0, 0
 	classes := map[string]int{}
+	// file descriptors the Go runtime itself creates (wake-up pipes / eventfds): writes
+	// to them are not the library's doing
+	runtimeFds := map[string]bool{}
+	fdOf := func(rest string) string {
+		if i := strings.IndexAny(rest, ",)"); i > 0 {
+			return strings.TrimSpace(rest[:i])
+		}
+		return ""
+	}
+	retOf := func(rest string) string {
+		if i := strings.LastIndex(rest, "= "); i >= 0 {
+			return strings.Fields(rest[i+2:])[0]
+		}
+		return ""
+	}
+	writes := 0
 	judge := func(name, rest, line string) string {
 		switch name {
+		case "write", "writev", "pwrite64", "pwritev", "pwritev2", "sendfile":
+			writes++
+			fd := fdOf(rest)
+			if fd == "1" || runtimeFds[fd] {
+				return ""
+			}
+			return "writes to file descriptor " + fd + " (only standard output is allowed)"
+		case "close":
+			return ""
+		case "dup", "dup2", "dup3":
+			return "duplicates a file descriptor"
 		case "stat", "lstat", "newfstatat", "fstatat64", "statx", "access", "faccessat", "faccessat2", "readlink", "readlinkat", "getcwd", "chdir":
 			// looking is not touching; only reads of file *contents* and changes count
 			if name == "chdir" {
@@ -266,6 +303,21 @@ func c10(c *ev.Ctx) {
 			continue
 		}
 		name, rest := m[2], m[3]
+		switch name {
+		case "eventfd", "eventfd2", "epoll_create1":
+			runtimeFds[retOf(rest)] = true
+		case "pipe", "pipe2":
+			if a, b := strings.Index(rest, "["), strings.Index(rest, "]"); a >= 0 && b > a {
+				for _, f := range strings.Split(rest[a+1:b], ",") {
+					runtimeFds[strings.TrimSpace(f)] = true
+				}
+			}
+		case "close":
+			delete(runtimeFds, fdOf(rest))
+		}
+		if name == "eventfd" || name == "eventfd2" || name == "pipe" || name == "pipe2" {
+			continue
+		}
 		if strings.Contains(rest, markerRoot) {
 			switch {
 			case strings.Contains(rest, markerRoot+"BEGIN"):
@@ -289,6 +341,11 @@ func c10(c *ev.Ctx) {
 				"summary": fmt.Sprintf("while running %s the library %s:\n  %s", current, why, clip(line, 400)), "syscall_line": line, "during": current})
 		}
 	}
+	// nothing may reach standard error (the worker itself writes there only when it fails)
+	if data, _ := os.ReadFile(errPath); len(data) > 0 {
+		c.Violation("stderr", "writes to standard error", map[string]interface{}{"summary": "the library wrote to standard error (only standard output is allowed): " + clip(string(data), 400)})
+	}
+	c.Extra("write_syscalls_judged", writes)
 	// canary
 	if data, err := os.ReadFile(canary); err != nil || string(data) != "canary-content-1\n" {
 		c.Violation("canary", "canary file changed", map[string]interface{}{"summary": fmt.Sprintf("the canary file was changed or removed: %q err=%v", data, err)})
